@@ -12,7 +12,7 @@ def run(ctx):
     if not q:
         ctx.model_check("MC_Ops", "selftest_second_read", constants=dict(O.BASE, Perturbs=("<-", "PertId"), MaxTicks=2, MaxLen=1, PinSecondRead=True),
                         invariants=O.INV_C07, expect=["Soundness", "Completeness"])
-        ctx.model_check("MC_Ops", "selftest_v1_err_before_community", constants=dict(O.BASE, Perturbs=("<-", "PertId"), MaxTicks=0, MaxLen=1, PinV1ErrBeforeCommunity=True,
+        ctx.model_check("MC_Ops", "selftest_v1_err_before_community", constants=dict(O.BASE, Perturbs=("<-", "PertForeign"), MaxTicks=0, MaxLen=1, PinV1ErrBeforeCommunity=True,
                                                                                      IdErrStatuses="{0, 2, 5}"),
                         invariants=O.INV_C07, expect=["CommunityVersionRefused"])
         ctx.model_check("MC_Ops", "selftest_err_before_id", constants=dict(O.BASE, Perturbs=("<-", "PertId"), MaxTicks=1, MaxLen=1, PinErrBeforeId=True,
